@@ -142,6 +142,43 @@ def enum_cases(tier, oracles, bound=1):
     return cases
 
 
+def deep_expr_cases(tier, oracles, bound=1):
+    """thorough tier only: both sides of a relation compound, depth-3 arithmetic, part-selects and bit-selects as
+    operands of arithmetic (15.5 k programs; the width/sign context has to be carried through two nodes)"""
+    if tier == 'quick':
+        return []
+    P_, Q_, X_ = gen.P_, gen.Q_, gen.X_
+    bs = [('lit', 1), ('ulit', 2, 2), ('slit', -1, 2)]
+    st = []
+    for rel in ('==', '<', '>='):
+        for op in ref.ARI:
+            for op2 in ref.ARI:
+                for b in bs[:2]:
+                    for c in bs[:2]:
+                        st.append(('expr', ('bin', rel, ('bin', op, P_, b), ('bin', op2, Q_, c))))
+                for b in bs:
+                    st.append(('expr', ('bin', rel, ('bin', op, ('bin', op2, P_, Q_), b), X_)))
+                    st.append(('expr', ('bin', rel, ('bin', op, b, ('bin', op2, P_, X_)), Q_)))
+    for op in ref.ARI:
+        for rel in ref.REL:
+            st.append(('expr', ('bin', rel, P_, ('bin', op, ('psel', 'x', 1, 0), ('lit', 1)))))
+            st.append(('expr', ('bin', rel, ('bin', op, ('psel', 'p', 2, 1), Q_), ('lit', 2))))
+            st.append(('expr', ('bin', rel, ('bin', op, ('psel', 'p', 1, 0), ('bit', 'x', 1)), Q_)))
+            st.append(('expr', ('bin', rel, ('bin', op, Q_, ('psel', 'p', 2, 1)), ('ulit', 2, 2))))
+    cases = []
+    for tp, tq in [(U3, S3), (S3, U3), (U3, U3)]:
+        for tx in (U2, S2):
+            fields = [fld('p', tp), fld('q', tq), fld('x', tx, rnd=False)]
+            Xs = [{'x': v} for v in xvals(tx)]
+            for s in st:
+                uses_x = 'x' in ref.stmt_fields(s)
+                if tx == S2 and not uses_x:
+                    continue
+                cases.append({'prog': {'fields': fields, 'block': [s], 'call': 'randomize'}, 'X': Xs if uses_x else [{'x': 0}],
+                              'bound': bound, 'oracles': oracles})
+    return cases
+
+
 def three_field_cases(tier, oracles, bound=1):
     """three random fields: unique over three, chains, merged rand sets"""
     cases = []
